@@ -65,6 +65,9 @@ def gen(rng, tier):
     for _ in range(n):
         lumped = rng.random() < 0.4
         case = _case(rng, lumped)
+        if not lumped and rng.random() < 0.08:      # narrow / unsigned integer types, long runs, > 128 states
+            trajs, dtypes, tag = G.narrow_set(rng)
+            case.update({'trajs': trajs, 'form': 'loa', 'dtype': dtypes[0], 'dtypes': dtypes, 'alpha': tag})
         case['ops'] = _ops(rng, LUMPED_READS if lumped else PLAIN_READS, rng.randint(1, 25))
         yield case
     if tier == 'thorough':
@@ -108,7 +111,7 @@ def impl(case):
     import numpy as np
     import msmhelper as mh
     from implutil import build, canon
-    arg = build(case['form'], case['trajs'], [case['dtype']])
+    arg = build(case['form'], case['trajs'], case.get('dtypes') or [case['dtype']])
     if case['lumped']:
         marg = build(case['form'], case['macro'], ['int64'])
         obj = mh.LumpedStateTraj(marg, arg)
@@ -152,14 +155,14 @@ def impl(case):
             cand = [a for a in returned if a.size]
             if cand:
                 a = cand[op[1] % len(cand)]
-                a.reshape(-1)[op[2] % a.size] = op[3] if a.base is None or True else op[3]
+                a.reshape(-1)[op[2] % a.size] = abs(op[3]) % 100
         elif op[0] == 'write_arg':
             cand = [a for a in arg_arrays() if a.size]
             if cand:
                 a = cand[op[1] % len(cand)]
                 flat = a.reshape(-1)
                 if np.shares_memory(flat, a):
-                    flat[op[2] % a.size] = op[3]
+                    flat[op[2] % a.size] = abs(op[3]) % 100
             elif isinstance(arg, list):      # python lists (of lists)
                 if arg and isinstance(arg[0], list):
                     row = arg[op[1] % len(arg)]
